@@ -29,6 +29,16 @@ class Part(p_c01.Part):
             dict(base, ops=[{"op": "lookup", "rt": "cds", "name": "c1"}, {"op": "senderr"}, {"op": "lookups", "rt": "eds", "names": names[:300]},
                             {"op": "recverr", "auth": False, "connectfail": 1}, {"op": "lookup", "rt": "cds", "name": "c2"}]),
         ]
+        fixed += [
+            # the sender is held in a Send on the dying stream while two streams fail in a row: the live (third) stream must still get the re-requests
+            dict(base, ops=[{"op": "lookup", "rt": "cds", "name": "c1"}, {"op": "lookup", "rt": "eds", "name": "e1"}, {"op": "block_send"},
+                            {"op": "lookup", "rt": "rds", "name": "rc-a"},
+                            {"op": "recverr", "auth": False, "connectfail": 0, "nowait": True}, {"op": "recverr", "auth": False, "connectfail": 0, "nowait": True},
+                            {"op": "unblock_send"}, {"op": "lookup", "rt": "cds", "name": "c2"}]),
+            # an authentication rejection that arrives wrapped by the transport still stops the client
+            dict(base, ops=[{"op": "lookup", "rt": "cds", "name": "c1"}, {"op": "recverr", "auth": True, "wrapped": True},
+                            {"op": "lookup", "rt": "cds", "name": "c2"}, {"op": "lookup", "rt": "cds", "name": "c1"}]),
+        ]
         return fixed + cases
 
     @staticmethod
